@@ -34,7 +34,8 @@ type ReadTrace struct {
 }
 
 // ReadOn drives rd: it stops at io.EOF, or extraAfterErr calls after the first
-// non-EOF error, or after maxCalls calls.
+// non-EOF error, or after maxCalls calls that delivered nothing (calls that return
+// data never count against the cap: one-byte reads of a long stream are legitimate).
 func ReadOn(rd io.Reader, bufSizes []int, extraAfterErr, maxCalls int) (tr ReadTrace) {
 	tr.FirstErrCall = -1
 	if len(bufSizes) == 0 {
@@ -42,7 +43,8 @@ func ReadOn(rd io.Reader, bufSizes []int, extraAfterErr, maxCalls int) (tr ReadT
 	}
 	after := 0
 	zero := 0
-	for i := 0; i < maxCalls; i++ {
+	idle := 0
+	for i := 0; idle < maxCalls; i++ {
 		k := bufSizes[min(i, len(bufSizes)-1)]
 		if k < 0 {
 			k = 0
@@ -69,6 +71,9 @@ func ReadOn(rd io.Reader, bufSizes []int, extraAfterErr, maxCalls int) (tr ReadT
 			return
 		}
 		tr.Acc = append(tr.Acc, buf[:n]...)
+		if n == 0 {
+			idle++
+		}
 		if e == io.EOF {
 			tr.SawEOF = true
 			return
